@@ -22,7 +22,7 @@ def main():
         if a.json:
             print(json.dumps(r.to_json(), indent=1))
             continue
-        print(f"== {q}: {r.status} {r.reason} paths={r.paths} wall={r.wall_s:.2f}s cover={r.cover_ok} trivial={r.trivial}")
+        print(f"== {q}: {r.status} {r.reason} paths={r.paths} wall={r.wall_s:.2f}s explore={getattr(r, 'explore_s', None)}s cover={r.cover_ok} trivial={r.trivial}")
         for o in r.obligations:
             print(f"   {o['verdict']:10s} {o['name']}  x{o['instances']} {o['ms']}ms  L{o['line']} {o['info'][:90]}")
             if o['verdict'] == 'refuted':
